@@ -27,6 +27,7 @@ EXPLANATION = (
 
 
 _TOD = {}
+_PROG = []
 
 
 def _layout(fn, env, ptr_decl, is_writer):
@@ -91,6 +92,21 @@ def _layout(fn, env, ptr_decl, is_writer):
             return False
         if a.strip(casts=True).k == 'DeclRefExpr' and a.strip(casts=True).decl.get('sc') == 'param' and a.type and a.type['k'] == 'bool':
             return False      # optional mode flags (timeonly): the layout does not depend on them
+        sa = a.strip(casts=True)
+        if sa.is_call and sa.callee_qp and _PROG:
+            # a predicate helper with a single return: its expression under the caller's known arguments, input-character tests false as above
+            for h in _PROG[0].fns(sa.callee_qp):
+                rr = [x for x in h.all_nodes() if x.k == 'ReturnStmt' and x.children]
+                if len(rr) == 1 and len(h.param_ids) == len(sa.args):
+                    env2 = {}
+                    for pid, arg in zip(h.param_ids, sa.args):
+                        v_ = q.eval_int(arg, env)
+                        if v_ is not None:
+                            env2[pid] = v_
+                    v_ = q.eval_int(rr[0].children[0], env2, atom=lambda y: 0 if y.k == 'BinaryOperator' and y.op == '==' and
+                                    any(x.k == 'UnaryOperator' and x.op == '*' for x in y.walk()) else None)
+                    if v_ is not None:
+                        return bool(v_)
         if any(x.k == 'DeclRefExpr' and x.decl is not None and x.decl.get('sc') == 'static_local' for x in a.walk()):
             return True       # the refresh condition of a cache (R09.6 decides it): the layout is the same on both branches or the refresh writes are seen here
         return None
@@ -176,6 +192,7 @@ def leap_rule(ctx, prog, te, RID):
 
 def run(ctx):
     prog = Program(UNITS)
+    _PROG[:] = [prog]
     ctx.units.update(UNITS)
     # ---------------- R09.1
     te = prog.fn1('FIX8::time_to_epoch')
